@@ -17,3 +17,9 @@
 (declare-fun pypow (Int Int) Int)
 (define-fun imin ((a Int) (b Int)) Int (ite (<= a b) a b))
 (define-fun imax ((a Int) (b Int)) Int (ite (>= a b) a b))
+; Python's modulo written with SMT-LIB mod (same function as pymod by uniqueness of Euclidean division; used where the
+; modulus is symbolic and the remainder is produced by a library mod, e.g. three-argument pow)
+(define-fun pymodm ((a Int) (b Int)) Int (ite (> b 0) (mod a b) (- (mod (- a) (- b)))))
+; negation law of Euclidean remainders (elementary number theory; trusted lemma)
+;@for pymodm
+(assert (forall ((p Int) (n Int)) (! (=> (> n 0) (= (mod (- p) n) (ite (= (mod p n) 0) 0 (- n (mod p n))))) :pattern ((mod (- p) n)))))
